@@ -13,7 +13,7 @@ URank == [l \in {"*", "a", "b", "h01", "h02", "h03", "h1", "h2", "h3", "mail", "
 
 N(rel) == rel \o UZO
 Owners == {<<>>, <<"a">>, <<"b", "a">>, <<"*", "a">>}
-UTTLs == {5, 300, 600}
+UTTLs == {0, 5, 300, 600}
 
 (* rdata universe per type: <<names, data>> *)
 RdSOA == {<< <<N(<<"ns">>), <<"hm", "other">>>>, <<1, 3600, 600, 86400, 300>> >>,
@@ -71,7 +71,9 @@ ZG == ZoneOf({<< <<"h1">>, "A", 300, A1 >>, << <<"h2">>, "A", 300, A2 >>, << <<"
 ZG2 == ZoneOf({<< <<"h01", "a">>, "CNAME", 5, << <<N(<<"t0a">>)>>, <<>> >> >>,
                << <<"h02", "a">>, "CNAME", 5, << <<N(<<"t0b">>)>>, <<>> >> >>,
                << <<"a">>, "A", 5, A1 >>})
-Curated == {Z1, Z2, Z3, Z4, Z5, ZG, ZG2}
+\* TTL 0 (with default_ttl = 0 the writer must still emit "$TTL 0")
+Z6 == ZoneOf({<< <<>>, "NS", 300, NS1 >>, << <<"a">>, "A", 0, A1 >>, << <<"a">>, "A", 0, A2 >>, << <<"b", "a">>, "TXT", 0, TXq >>})
+Curated == {Z1, Z2, Z3, Z4, Z5, Z6, ZG, ZG2}
 
 AllRecs == UNION {{<<o, ty, t, rd>> : o \in (IF ty = "SOA" THEN {<<>>} ELSE Owners), t \in UTTLs, rd \in RdOf(ty)} : ty \in UTypes}
 Singles == {ZoneOf({r}) : r \in AllRecs}
@@ -85,10 +87,10 @@ Bool == {TRUE, FALSE}
 DefaultStyle == [sorted |-> TRUE, wantOrigin |-> FALSE, org |-> "none", defTTL |-> <<"none">>, dedup |-> FALSE,
                  omitClass |-> FALSE, generic |-> FALSE, comments |-> FALSE, just |-> FALSE, chunk |-> FALSE, nl |-> "lf"]
 SemStyles == [sorted : Bool, wantOrigin : Bool, org : {"none", "rel", "derel"},
-              defTTL : {<<"none">>, <<"t", 300>>, <<"t", 77>>}, dedup : Bool, omitClass : Bool, generic : Bool,
+              defTTL : {<<"none">>, <<"t", 300>>, <<"t", 77>>, <<"t", 0>>}, dedup : Bool, omitClass : Bool, generic : Bool,
               comments : {FALSE}, just : {FALSE}, chunk : {FALSE}, nl : {"lf"}]
 AllStyles == [sorted : Bool, wantOrigin : Bool, org : {"none", "rel", "derel"},
-              defTTL : {<<"none">>, <<"t", 300>>, <<"t", 77>>}, dedup : Bool, omitClass : Bool, generic : Bool,
+              defTTL : {<<"none">>, <<"t", 300>>, <<"t", 77>>, <<"t", 0>>}, dedup : Bool, omitClass : Bool, generic : Bool,
               comments : Bool, just : Bool, chunk : Bool, nl : {"lf", "crlf"}]
 Knobs == {"sorted", "wantOrigin", "org", "defTTL", "dedup", "omitClass", "generic", "comments", "just", "chunk", "nl"}
 Deviations(st) == Cardinality({k \in Knobs : st[k] # DefaultStyle[k]})
